@@ -502,7 +502,7 @@ func TestVerif_C07(t *testing.T) {
 			}
 			rep.Count("publications", int64(len(w.pubs)))
 			rep.Count("subscription_instances", int64(len(w.subs)))
-			if i < 2 {
+			if rep.WantSample() {
 				rep.Sample(map[string]any{"connections": nconn, "log": w.log[:min(14, len(w.log))]})
 			}
 		})
